@@ -344,6 +344,9 @@ def dedupe(cases):
     return out
 
 
+CASE_HEADER = ("From HT Require Import Base.Prelude Num.Arith Num.Text Amm.Formulas Amm.Guards Amm.Known "
+               "Reg.Registry World.World World.Observe World.Monitors Exec.Cases.\nOpen Scope N_scope.\n")
+
 SUMMARY_RE = re.compile(r"=\s*\(\s*(\[[^\]]*\])\s*,\s*(\[[^\]]*\])\s*,\s*(\[[^\]]*\])\s*,\s*(\d+)\s*\)")
 
 
@@ -379,7 +382,7 @@ def run_coq_cases(prop, cases, workdir, tag, shard_size=250, timeout=900):
         name = "cases_%s_%s_%d" % (prop, tag, si)
         path = os.path.join(workdir, name + ".v")
         with open(path, "w") as f:
-            f.write("From HT Require Import Base.Prelude Exec.Cases.\nOpen Scope N_scope.\n")
+            f.write(CASE_HEADER)
             f.write("Definition vs : list verdict := [\n")
             f.write(";\n".join(c.term(prop) for c in chunk))
             f.write("\n].\nEval vm_compute in (summarize vs).\n")
@@ -421,7 +424,7 @@ def coq_eval(exprs, workdir, tag="eval", timeout=300):
     os.makedirs(workdir, exist_ok=True)
     path = os.path.join(workdir, "eval_%s.v" % tag)
     with open(path, "w") as f:
-        f.write("From HT Require Import Base.Prelude Exec.Cases.\nOpen Scope N_scope.\n")
+        f.write(CASE_HEADER)
         for e in exprs:
             f.write("Eval vm_compute in (%s).\n" % e)
     try:
@@ -482,12 +485,15 @@ class PropertyCheck:
     def families(self, rng, tier):
         raise NotImplementedError
 
+    search_rounds = 2
+    search_tier = "thorough"
+
     def search(self, rng, tier, suspects):
-        # default: a fresh, larger random sample from the same generators
+        # default: fresh, larger samples from the same generators
         fams = []
-        for k in range(3):
+        for k in range(self.search_rounds):
             r2 = random.Random(rng.getrandbits(64))
-            fams += self.families(r2, "thorough" if tier == "quick" else tier)
+            fams += self.families(r2, self.search_tier if tier == "quick" else tier)
         return fams
 
     def witnesses(self):
